@@ -27,6 +27,8 @@ OPTIONS = [
     ('on_access_log', 'modify', None),
     ('on_access_log', 'drop', None),
     ('resolve_dns', 'modify', '10.0.0.7'),
+    ('before_upstream_connection', 'replace', None),        # returns a NEW request object
+    ('handle_client_request', 'replace', None),
 ]
 CHUNK_MODS = [(b'ok', b'oA'), (b'o', b'B'), (b'A', b'ok')]    # order-sensitive replacements
 
@@ -169,7 +171,7 @@ def chain_request(behs, hook, tags):
     tags = set(tags)
     for i, b in enumerate(behs):
         a = b.get(hook, ('pass', None))
-        if a[0] == 'modify':
+        if a[0] in ('modify', 'replace'):
             tags.add(('P%d' % i).encode())
         elif a[0] == 'drop':
             return 'drop', tags, i
@@ -230,7 +232,7 @@ def check(w):
                 need = {t for t in seen_mod}
                 if not need <= tags:
                     bad('request_not_threaded_through_chain', hook=hook, plugin=name, tags=sorted(tags), need=sorted(need))
-                if behs[i].get(hook, ('pass',))[0] == 'modify':
+                if behs[i].get(hook, ('pass',))[0] in ('modify', 'replace'):
                     seen_mod.add(name.encode())
     # ---- reference interpretation of the first request
     bu_called = bool(rounds(rec, 'before_upstream_connection'))
@@ -317,7 +319,7 @@ def run(tier):
     lz = scenarios(tier)
     return netcheck.run(PROP, tier, lz, check, 0, None, det_every=211, flagsets=[],
                         rule='plugin programs: every list of 1..n recording plugins (n=2 quick, 3 thorough), each with one '
-                             'of 12 (hook, behaviour) options, every order, x 8 endings (+ auth on: good / bad credentials); plus, for every single-plugin program and a set of '
+                             'of 14 (hook, behaviour) options, every order, x 8 endings (+ auth on: good / bad credentials); plus, for every single-plugin program and a set of '
                              'two-plugin programs, every single injected socket error / postponed peer action (d <= 1) with the '
                              'order, threading and exactly-once lifecycle rules as oracle; '
                              'one execution of the real executor each; reference interpreter of the documented chain as oracle')
